@@ -137,7 +137,10 @@ def gen_simple_term(rng, solver):
     if c < 0.25: return {'t': 'VTR', 'kw': {'tolerance': rng.choice([1e-2, 1.0, 5.0]), 'target': rng.choice([0.0, 0.0, 1.5])}}
     if c < 0.45: return {'t': 'COG', 'kw': {'tolerance': rng.choice([1e-6, 1e-2, 0.5]), 'generations': rng.choice([1, 2, 3, 5])}}
     if c < 0.6: return {'t': 'NCOG', 'kw': {'tolerance': rng.choice([1e-4, 1e-2]), 'generations': rng.choice([1, 2, 4])}}
-    if c < 0.75: return {'t': 'CRT', 'kw': {'xtol': rng.choice([1e-4, 1e-2, 0.3]), 'ftol': rng.choice([1e-4, 1e-2, 0.3])}}
+    if c < 0.75:
+        if solver == 'Powell':      # CandidateRelativeTolerance is documented as invalid for nPop < 2
+            return {'t': 'NCOG', 'kw': {'tolerance': rng.choice([1e-4, 1e-2]), 'generations': 2}}
+        return {'t': 'CRT', 'kw': {'xtol': rng.choice([1e-4, 1e-2, 0.3]), 'ftol': rng.choice([1e-4, 1e-2, 0.3])}}
     if c < 0.85: return {'t': 'VTRCOG', 'kw': {'ftol': 1e-2, 'gtol': 1e-4, 'generations': rng.choice([2, 4])}}
     return None   # keep the solver's default
 
@@ -161,3 +164,35 @@ def compatible(con, box):
     if fam == 'chain':
         return all(compatible(c, box) for c in p['of'])
     return False
+
+
+def gen_prim_term(rng, solver, clock=True, interrupt=True):
+    pool = ['VTR', 'COG', 'NCOG', 'SolutionImprovement', 'NormalizedCostTarget', 'VTRCOG',
+            'PopulationSpread', 'EvaluationLimits', 'COG', 'NCOG', 'VTR']
+    if solver != 'Powell': pool.append('CRT')
+    if clock: pool += ['TimeLimits', 'TimeLimits']
+    if interrupt: pool.append('SolverInterrupt')
+    t = rng.choice(pool)
+    tol = lambda: rng.choice([1e-8, 1e-4, 1e-2, 0.1, 1.0, 5.0, 50.0])
+    gens = lambda: rng.choice([0, 1, 1, 2, 2, 3, 5, None, 50])
+    if t == 'VTR': kw = {'tolerance': tol(), 'target': rng.choice([0.0, 0.0, 1.5, -2.0])}
+    elif t in ('COG', 'NCOG'): kw = {'tolerance': tol(), 'generations': gens()}
+    elif t == 'CRT': kw = {'xtol': tol(), 'ftol': tol()}
+    elif t == 'SolutionImprovement': kw = {'tolerance': tol()}
+    elif t == 'NormalizedCostTarget':
+        kw = {'fval': rng.choice([None, None, 0.0, 1.5, -2.0]), 'tolerance': tol(), 'generations': gens()}
+    elif t == 'VTRCOG': kw = {'ftol': tol(), 'gtol': tol(), 'generations': gens(), 'target': rng.choice([0.0, 1.5])}
+    elif t == 'PopulationSpread': kw = {'tolerance': tol()}
+    elif t == 'EvaluationLimits':
+        kw = {'generations': rng.choice([None, 0, 1, 3, 8, 20]), 'evaluations': rng.choice([None, 1, 10, 40, 200])}
+    elif t == 'TimeLimits':
+        kw = {'seconds': rng.choice([0, 1e-3, 1, 60, 3600, 86400]), 'system': rng.choice([None, True, False])}
+    else: kw = {}
+    return {'t': t, 'kw': kw}
+
+def gen_term_tree(rng, solver, depth=3, clock=True, interrupt=True):
+    if depth <= 0 or rng.random() < 0.45:
+        return gen_prim_term(rng, solver, clock, interrupt)
+    t = rng.choice(['And', 'Or', 'Or', 'When'])
+    n = 1 if t == 'When' else rng.choice([1, 2, 2, 3])
+    return {'t': t, 'of': [gen_term_tree(rng, solver, depth - 1, clock, interrupt) for _ in range(n)]}
